@@ -193,7 +193,7 @@ struct Bufs {
 }
 
 /// Fill `dst` with a variant of values in [lo, hi]: 0 all-min, 1 all-max, 2 alternating,
-/// 3 single spike (max at a seeded slot over min), 4 boundary values, >=5 seeded random.
+/// 3 single spike (max at a seeded slot over min), 4 boundary values, 5-7 special values (0, +-1, q, q+-1, (q-1)/2, gamma2 multiples, 2^12, ...) planted among random ones, >=8 seeded random.
 fn fill(dst: &mut [i32; 256], lo: i64, hi: i64, variant: u64, g: &mut Sm) {
     let mid = (lo + hi) / 2;
     let spike = (g.next() % 256) as usize;
@@ -204,6 +204,12 @@ fn fill(dst: &mut [i32; 256], lo: i64, hi: i64, variant: u64, g: &mut Sm) {
             2 => if i % 2 == 0 { hi } else { lo },
             3 => if i == spike { hi } else { lo },
             4 => [lo, lo + 1, mid - 1, mid, mid + 1, hi - 1, hi, 0i64.clamp(lo, hi)][i % 8],
+            // special values that arithmetic shortcuts tend to single out, clamped into the domain
+            5 | 6 | 7 => {
+                const SP: [i64; 24] = [0, 1, -1, 8_380_416, 8_380_417, 8_380_418, -8_380_416, -8_380_417, 4_190_208, 4_190_209, -4_190_208,
+                    4096, -4095, 4095, 8192, 95_232, 190_464, 261_888, 523_776, -95_232, -261_888, 131_072, 524_288, 8_285_185];
+                if (i + variant as usize) % 3 == 0 { SP[(i / 3 + variant as usize * 7) % 24].clamp(lo, hi) } else { g.range(lo, hi) }
+            }
             _ => g.range(lo, hi),
         };
         *d = v as i32;
@@ -325,7 +331,7 @@ fn kernels_stage(args: &[String]) -> Value {
     let mut results = Vec::new();
     for (name, prep, f) in kernels() {
         let mut g = Sm(seed ^ Sha256::digest(name.as_bytes())[0] as u64);
-        prep(&mut b, 5, &mut g);
+        prep(&mut b, 9, &mut g);
         let _ = kernel_window(f, &mut b, 0); // warm-up
         let mut traces: HashMap<Trace, (u64, u64)> = HashMap::new();
         let mut inputs_seen: HashSet<[u8; 8]> = HashSet::new();
@@ -351,7 +357,7 @@ fn kernels_stage(args: &[String]) -> Value {
             let mut logs = Vec::new();
             for target in [distinct[0].1 .0, distinct[1].1 .0] {
                 let mut g2 = Sm(seed ^ Sha256::digest(name.as_bytes())[0] as u64);
-                prep(&mut b, 5, &mut g2);
+                prep(&mut b, 9, &mut g2);
                 for v in 0..=target {
                     prep(&mut b, v, &mut g2);
                 }
